@@ -113,7 +113,7 @@ def replay(ctx, cases, variant):
 
 def run(ctx):
     # (M)
-    m = tlc.run("MCCheck", workers=TLC_WORKERS, timeout=900, coverage=True)
+    m = tlc.run("MCCheck", cfg="MCCheck.cfg" if ctx.quick else "MCCheckThorough.cfg", workers=TLC_WORKERS, timeout=1500, coverage=True)
     ctx.add_tlc("MCCheck(strings over {0,1,80,FF} up to 5 bytes; SHA lengths 0..130; all piece sequences)", m, exhaustive=True)
     if m.violation:
         ctx.violation("model:" + m.violation, m.out[-4000:], dict(kind="tlc_counterexample"))
